@@ -184,6 +184,7 @@ func (c *fakeConn) SetWriteDeadline(t time.Time) error { return nil }
 // connections queue up (like a kernel accept backlog), so the script never
 // blocks on a busy accept loop.
 type fakeListener struct {
+	addr    fakeAddr
 	tr      *tracer
 	mu      sync.Mutex
 	wake    chan struct{}
@@ -280,6 +281,11 @@ func (l *fakeListener) Close() error {
 	return nil
 }
 
-func (l *fakeListener) Addr() net.Addr { return fakeAddr("0.0.0.0:179") }
+func (l *fakeListener) Addr() net.Addr {
+	if l.addr == "" {
+		return fakeAddr("0.0.0.0:179")
+	}
+	return l.addr
+}
 
 var errScriptedListener = errors.New("scripted listener failure")
